@@ -9,11 +9,17 @@
 //	     O,<name>                     Add with a per-target option (rejected)
 //	     R,<name>                     Remove(name)
 //	     U,<name>,<contract>          the live instance behind <name> starts serving another contract
+//	     X,<name>,<refl>,<contract>   Remove(name) and Add(name) (fresh instance) started concurrently while the
+//	                                  poller of <name> is in the middle of a resolution; a failed Add is repeated once
 //	     P                            nothing (probe only)
 //
 // Output: one token before the first op and one per op:  <op result>=<record>,<record>,…  with the
 // records in the order: every G path on the entries px (gRPC through GRPCProxy), gw (gRPC-Web over HTTP),
-// gs (gRPC-WebSocket); every H probe (transcoded HTTP); every W probe (transcoded WebSocket).
+// gs (gRPC-WebSocket), dg (router.RouteGRPC called directly: owner + digest of route.Service); every H probe on
+// ht (transcoded HTTP) and dh (router.RouteHTTP directly: owner, method, kind, body mapping); every W probe
+// (transcoded WebSocket).  Op results: A ok|err (ok! = not settled within the bound), R true~px:E;gw:E;gs:E;ht:E;ws:E
+// (calls in flight through every entry at Remove: E ended within 2 s, O still open, N not established) | true | false,
+// X <remove>/<add>/<add again or ->, U ok|ok!|absent, F/O err.
 // A record is  -<code>  (not served: gRPC status / HTTP status / c<close code>),
 // +<instance>|<method seen by the target>|<id>|<nested.name>|<sub>|<stamp header seen by the client>|<encoding>
 // or !<what> (protocol-level surprise).  See contract.go for the contract syntax.
